@@ -65,6 +65,9 @@ def rule_json_str(ctx):
                 o = o.base
             if o is not None and o.kind == 'agg' and o.rv.get('kind') == 'closure':
                 preds += ctx.facts.find(norm(o.rv['def']))
+            elif isinstance(a, dict) and isinstance(a.get('k'), dict) and a['k'].get('fn'):
+                # a named predicate function passed as a value (`s.find(needs_escape)`)
+                preds += ctx.facts.find(norm(a['k']['fn']))
     tests = char_tests(ctx, b, only=preds) if preds else char_tests(ctx, b)
     ctx.extra['json_str_search_predicate'] = [x.nid for x in preds]
     has_quote = any(v in ("'\"'", 34) for _o, v in tests)
